@@ -1,3 +1,5 @@
+//go:build go1.25
+
 // C33: tags reach a remote cluster only after their blobs do.
 //
 // E1(seq): one controlled thread runs the REAL tagreplication.Executor over the
@@ -24,6 +26,7 @@ import (
 	"os"
 	"sort"
 	"strings"
+	"testing"
 	"time"
 
 	"github.com/uber-go/tally"
@@ -35,6 +38,7 @@ import (
 	"github.com/uber/kraken/utils/httputil"
 
 	"verif/checks/c33/vtime"
+	"verif/e1q"
 	"verif/evid"
 	_ "verif/quiet"
 	"verif/rep"
@@ -480,6 +484,9 @@ func allHarnesses() []*vrt.Harness {
 			hs = append(hs, harness(sc))
 		}
 	}
+	for _, sc := range cscenarios(true) {
+		hs = append(hs, charness(sc))
+	}
 	return hs
 }
 
@@ -512,13 +519,22 @@ func replay(run *evid.Run, path string) {
 }
 
 func main() {
+	args := os.Args // e1q.Main truncates os.Args for the testing package; evid.New needs the tier argument
+	e1q.Main(func(t *testing.T) {
+		os.Args = args
+		mainT()
+	})
+}
+
+func mainT() {
 	vrt.WorkerMain(allHarnesses())
 	run := evid.New("C33", "exploration")
-	run.Rule = "E1(seq): per scenario (1-2 dependencies x 1-2 local origins), ONE controlled thread executes a tag-replication task with the real tagreplication.Executor over the real blobclient.ClusterClient (ReplicateToRemote -> Poll, hard-coded back-off on a virtual clock) up to `attempts` times (stopping at the first nil, as the persisted-retry manager does) and then once more in a closing phase where every answer is ok. Every environment answer is a vrt.Choose: remote build-index Has {truthful, 503}, Origin {ok, 503}, PutAndReplicate {ok, 503, 409, network error, stored but response lost}; each local origin's ReplicateToRemote {ok, 202 then ok, 202 until the back-off stops, 503, 404, network error}. The explorer enumerates every answer sequence with at most `bound` non-default answers. Oracle: whenever PutAndReplicate reaches the remote build-index every dependency has been answered ok by a local origin for that remote origin cluster; Exec returns nil only if the remote build-index holds the tag with the task's digest; the closing Exec returns nil. distinct = distinct outcome classes (per-Exec result class incl. 202 / back-off timeout / origin fall-back flags) per scenario."
+	run.Rule = "E1(seq): per scenario (1-2 dependencies x 1-2 local origins), ONE controlled thread executes a tag-replication task with the real tagreplication.Executor over the real blobclient.ClusterClient (ReplicateToRemote -> Poll, hard-coded back-off on a virtual clock) up to `attempts` times (stopping at the first nil, as the persisted-retry manager does) and then once more in a closing phase where every answer is ok. Every environment answer is a vrt.Choose: remote build-index Has {truthful, 503}, Origin {ok, 503}, PutAndReplicate {ok, 503, 409, network error, stored but response lost}; each local origin's ReplicateToRemote {ok, 202 then ok, 202 until the back-off stops, 503, 404, network error}. The explorer enumerates every answer sequence with at most `bound` non-default answers. Oracle: whenever PutAndReplicate reaches the remote build-index every dependency has been answered ok by a local origin for that remote origin cluster; Exec returns nil only if the remote build-index holds the tag with the task's digest; the closing Exec returns nil. distinct = distinct outcome classes (per-Exec result class incl. 202 / back-off timeout / origin fall-back flags) per scenario. PART 2, E1q (testing/synctest bubble): 2-3 tasks (two remote clusters A, B and/or two tags, 1-2 dependency blobs) are executed by concurrent real Executor.Exec calls over the real ClusterClient in front of the REAL blobserver.Server (replicate-to-remote requests served by Server.Handler().ServeHTTP, blobs in a real CAStore); seams = each remote origin cluster's UploadBlob (parks while the upload is in flight; on release reads the bytes the origin sends and records that remote origin R holds the blob) and each remote build-index's PutAndReplicate; EVERY order of the actions 'start Exec <task>' and of the parked seams is executed. Oracle: when PutAndReplicate reaches build-index R, remote origin R has really received every dependency blob of that task; Exec nil => build-index R holds the tag; every Exec returns."
 	run.Assume("the persisted-retry manager (C30) re-runs a task whose Exec returned an error and drops one whose Exec returned nil: 'retried until the remote holds the tag' is checked as 'Exec returns nil only if the remote holds the tag' + 'with every call succeeding Exec returns nil'")
 	run.Assume("'confirmed present in the remote origin cluster' = some local origin answered 200 to the replicate-to-remote request for that blob and that remote origin cluster, in this or an earlier execution of the task (the fakes never lose a blob)")
-	run.Assume("ClusterClient's Poll back-off is hard-coded: the build overlay redirects the time/backoff imports of cluster_client.go to a per-goroutine virtual clock (kraken's source is unchanged; the import rewrite is trusted to preserve semantics)")
-	run.Assume("small-scope: one tag, 1-2 dependencies, 1-2 origins, one remote; a remote build-index that answers Has never lies")
+	run.Assume("ClusterClient's Poll back-off is hard-coded: the build overlay redirects the time/backoff imports of cluster_client.go to a process-wide virtual clock, reset per execution (kraken's source is unchanged; the import rewrite is trusted to preserve semantics)")
+	run.Assume("small-scope: part 1 one tag, 1-2 dependencies, 1-2 origins, one remote; part 2 2-3 concurrent tasks, 2 remotes, 1-2 blobs, one local origin, no injected failures; a remote build-index that answers Has never lies")
+	run.Assume("part 2: the HTTP hop between the cluster client and the origin is replaced by a direct Handler().ServeHTTP call (non-200 status -> httputil.StatusError as blobclient.HTTPClient returns it); scheduling granularity = the seam points (upload in flight / released, put in flight / released, task start), code between two seams runs atomically")
 	if p := run.ReplayPath(); p != "" {
 		replay(run, p)
 		return
@@ -577,10 +593,58 @@ func main() {
 		exs[m] = need[m]
 	}
 	run.Set("executions_by_outcome_marker", exs)
+
+	// part 2 (E1q): overlapping Exec runs through the real origin handler
+	cneed := map[string]int{}
+	cmarkers := []string{"same-blob-overlap=true", "any-overlap=true", "any-overlap=false"}
+	for _, sc := range cscenarios(thorough) {
+		h := charness(sc)
+		for _, ch := range [][]int{nil, {1, 0, 1}, {0, 1, 1, 0, 1}} {
+			_, o1, _ := vrt.Replay(h, ch)
+			_, o2, _ := vrt.Replay(h, ch)
+			if o1 != o2 {
+				run.Fatal(fmt.Errorf("non-deterministic replay in %s for %v: %q vs %q", h.Name, ch, o1, o2))
+			}
+		}
+		left := int(time.Until(deadline).Seconds())
+		if left < 1 {
+			left = 1
+		}
+		// bound 64 >= number of steps of any execution: every order
+		res := rep.VRT(run, h, 64, 1, left, fp)
+		blocked, failed := 0, 0
+		for k, n := range res.Outcomes {
+			for _, m := range cmarkers {
+				if strings.Contains(k, m) {
+					cneed[m] += n
+				}
+			}
+			if strings.Contains(k, ":blocked") || strings.HasPrefix(k, "DEADLOCK") {
+				blocked += n
+			}
+			if strings.Contains(k, ":error") {
+				failed += n
+			}
+		}
+		if run.NViolations() == 0 && (blocked > 0 || failed > 0) {
+			run.Fatal(fmt.Errorf("%s: %d orders left an Exec blocked and %d made one fail although no failure is injected in this part", h.Name, blocked, failed))
+		}
+		fmt.Printf("  %s: orders=%d outcome classes=%d max steps=%d completed=%v\n", h.Name, res.Executions, len(res.Outcomes), res.MaxPoints, res.Completed)
+	}
+	cexs := map[string]int{}
+	for _, m := range cmarkers {
+		cexs[m] = cneed[m]
+	}
+	run.Set("concurrent_orders_by_marker", cexs)
 	if run.NViolations() == 0 {
 		for _, m := range markers {
 			if need[m] == 0 {
 				run.Fatal(errors.New("vacuous: no execution with outcome marker " + m))
+			}
+		}
+		for _, m := range cmarkers {
+			if cneed[m] == 0 {
+				run.Fatal(errors.New("vacuous: no concurrent order with " + m))
 			}
 		}
 	}
